@@ -291,8 +291,8 @@ def run_clause_shard(prop, clause_index, n, seed, shrink=True, max_buckets=4):
             try:
                 test()
             except Violation as v:
-                out["failures"].append({"clause": v.clause, "bucket": v.bucket, "message": v.message,
-                                        "case": json.loads(canon(last.get("case")))})
+                out["failures"].append({"clause": clause.name, "vclause": v.clause, "bucket": v.bucket,
+                                        "message": v.message, "case": json.loads(canon(last.get("case")))})
                 excluded.add(v.bucket)
                 remaining -= max(1, stats.evaluations - before)
                 continue
@@ -334,8 +334,8 @@ def run_enum_chunk(prop, enum_index, tier, lo, hi):
                     continue
                 if v.bucket not in seen_buckets:
                     seen_buckets.add(v.bucket)
-                    out["failures"].append({"clause": v.clause, "bucket": v.bucket, "message": v.message,
-                                            "case": json.loads(canon(case))})
+                    out["failures"].append({"clause": en.name, "vclause": v.clause, "bucket": v.bucket,
+                                            "message": v.message, "case": json.loads(canon(case))})
                 else:
                     stats.excluded += 1
                 continue
@@ -368,7 +368,7 @@ def run_replay_file(prop, path):
     try:
         fn(rec["case"])
     except Violation as v:
-        return {"clause": v.clause, "bucket": v.bucket, "message": v.message, "case": rec["case"]}
+        return {"clause": name, "vclause": v.clause, "bucket": v.bucket, "message": v.message, "case": rec["case"]}
     return None
 
 
